@@ -15,7 +15,8 @@ RULE = ("(A) token-level: 1-3 mutations (delete, duplicate, swap adjacent / dist
         "independent lexer + Earley recogniser of the documented grammar; reject => ExperimentEvaluator(text) must raise "
         "and parse_source(text) must raise or return None. Accepted mutants are only counted (C07's business), ambiguous "
         "ones (single word elseif, unterminated / nested block comment, keyword-prefix readings that disagree) are skipped "
-        "and counted. Non-trivial = mutated text rejected by the reference; distinct by text.")
+        "and counted - but still compiled, after which (and after every rejected text containing /*) fixed invalid canaries such as "
+        "'junk */ def e {...}' must still be rejected (compiling is stateless). Non-trivial = mutated text rejected by the reference; distinct by text.")
 ASSUMPTIONS = [
     "the reference lexer reads keywords as whole words and `not in` / `else if` as single tokens when separated by whitespace only",
     "texts whose whole-word and first-match keyword readings disagree on acceptance are skipped as ambiguous",
@@ -57,7 +58,9 @@ def judge(case):
     verdict = refgrammar.classify(text)
     tags = ["level:" + case.get("level", "?"), "reference:" + verdict] + ["mutation:" + k for k in case.get("kinds", [])]
     if verdict == "ambiguous":
-        return {"viol": [], "nontrivial": False, "tags": tags, "skipped": "ambiguous"}
+        # not judged - but still compiled, so that whatever state it leaves behind is seen by the canaries below
+        sut.compile_text(text)
+        return {"viol": _canaries(text), "nontrivial": False, "tags": tags, "skipped": "ambiguous"}
     if verdict == "accept":
         return {"viol": [], "nontrivial": False, "tags": tags}
     viol = []
@@ -70,7 +73,26 @@ def judge(case):
             viol.append("parse_source returned an experiment (%s) for text outside the grammar | %r" % (getattr(ast, "id", "?"), text))
     except Exception:
         pass
+    if "/*" in text:
+        viol += _canaries(text)
     return {"viol": viol, "nontrivial": True, "tags": tags, "key": text, "sample": {"text": text[:300], "mutations": case.get("kinds")}}
+
+
+CANARIES_INVALID = ['junk ; @ */ def e { return "A" weighted 1 }', '*/ def e { return "A" weighted 1 }',
+                    'x = 1 \n */ def e { splitters: u return "A" weighted 1, "B" weighted 1 }']
+CANARY_VALID = 'def canary { splitters: u return "A" weighted 1, "B" weighted 1 }'
+
+
+def _canaries(after_text):
+    """compiling is stateless: whatever was compiled before, invalid canaries stay rejected and a valid one still compiles"""
+    viol = []
+    for c in CANARIES_INVALID:
+        if sut.compile_text(c)[0] == "ok":
+            viol.append("text outside the grammar was compiled into an evaluator: %r - right after compiling %r (state leaked "
+                        "from one compile into the next)" % (c, after_text))
+            sut.compile_text("/* reset */ " + CANARY_VALID)
+            break
+    return viol
 
 
 def run_atheris(ctx, rec, runs, part="atheris"):
@@ -146,6 +168,19 @@ FIXED = [
     'def e { if a === 1 { return "x" weighted 1 } }',
     'def e { if a == 1 { return "x" weighted 1 } else if { return "y" weighted 1 } }',
     'def e { return "x" weighted 1 } /',
+    'def e { if a == - - 1 { return "x" weighted 1 } }',
+    'def e { if a == --1 { return "x" weighted 1 } }',
+    'def e { return - - 1 weighted 1 }',
+    'def e { return -"x" weighted 1 }',
+    'def e { return "x" weighted - 1 }',
+    'def e { if a == -b { return "x" weighted 1 } }',
+    'def e { if a == -(1, 2) { return "x" weighted 1 } }',
+    'def e { if not not { return "x" weighted 1 } }',
+    'def e { if a in in (1) { return "x" weighted 1 } }',
+    'def e { salt: "a" salt: "b" return "x" weighted 1 }',
+    'def e { splitters: a splitters: b return "x" weighted 1 }',
+    'def e { return "x" weighted 1 /* open }',
+    'def e { return "x" /* open weighted 1 }',
 ]
 
 
